@@ -22,3 +22,12 @@ Proof. exact unsorted_choice_refuted. Qed.
 Theorem C09_tail_result_is_order_independent : forall t argv us us',
   Permutation us us' -> parse_tail t argv us = parse_tail t argv us'.
 Proof. exact parse_tail_order_independent. Qed.
+
+(* which usage wins when several fit: the first one in the (sorted) order, and only that one *)
+Theorem C09_tail_first_fitting_usage_wins : forall t argv us,
+  match first_match t argv us with
+  | Some (Some l) => exists pre ds post, us = pre ++ ds :: post /\ fits t argv ds l /\ Forall (misfits t argv) pre
+  | Some None => Forall (misfits t argv) us
+  | None => exists ds, In ds us /\ List.length argv = List.length ds /\ bind_list t argv ds ds = None
+  end.
+Proof. exact first_match_spec. Qed.
